@@ -691,6 +691,23 @@ def _sizeb(g, scale):
     """C14 with a TIGHT bound: bitmaps confined to chunk 0 (so that the universe term of the bound is minimal), driven through
     the histories that change a chunk's best representation (run trimming, threshold walks, fill/empty), `size` after each"""
     r = g.r
+    # copy-on-write clone, RunOptimize on one side (content-neutral), in-place union with a sparse bitmap on that side: the OTHER
+    # side keeps its content and its size
+    for side_is_clone in (False, True):
+        x, y, z = g.fresh(), g.fresh(), g.fresh()
+        g.emit("new %s" % x)
+        g.emit("addr %s 1000 3000" % x)
+        g.emit("addr %s 70000 70100" % x)
+        g.emit("opt %s" % x)
+        g.emit("cowclone %s %s" % (y, x))
+        side, other = (y, x) if side_is_clone else (x, y)
+        g.emit("opt %s" % side)
+        g.emit("of %s %s" % (z, " ".join(str(v) for v in sorted(r.sample(range(0, 65536), 600)))))
+        g.emit("ior %s %s" % (side, z))
+        g.emit("dig %s" % other)
+        g.emit("size %s" % other)
+        g.emit("wf %s" % other)
+        g.count("sizeb:cow-opt-ior")
     for _ in range(int(14 * scale)):
         x = g.fresh()
         g.emit("new %s" % x)
